@@ -7,7 +7,7 @@ CFG = dict(
                "unconditionally: number of samples, values, labels unchanged and a sample with frames never becomes empty; "
                "RemoveUninteresting = Prune with ^(..)$-anchored expressions, identity without drop_frames, error leaves the profile "
                "alone; any history of these operations on ONE profile object leaves what the composition of the rules leaves, validity "
-               "preserved step by step (history_meets_spec); simplifyFunc only cuts a suffix; refuted twins for F14, F15 with concrete witnesses.",
+               "preserved step by step (history_meets_spec); RemoveUninteresting realises the rule stated with an abstract full-match predicate whenever the anchored expressions behave as that predicate (remove_uninteresting_full_match; re-checked per case against Go regexp); simplifyFunc only cuts a suffix; refuted twins for F14, F15 with concrete witnesses.",
     level_note="Regexp engine abstract (match table shipped per case); simplifyFunc's fixed bracket expression modelled exactly and "
                "compared on 400+ names per run; the call site in fetch.go (fetchProfiles applies RemoveUninteresting exactly once, whatever the "
                "mappings' HasFunctions flags) is covered by the `fetch` op on the real fetchProfiles; addLegacyFrameInfo is not modelled.",
@@ -15,7 +15,7 @@ CFG = dict(
          "'(', 'operator()', '(anonymous namespace)' pieces; Prune with drop/keep pairs, PruneFrom, RemoveUninteresting (incl. invalid "
          "expressions, keep without drop) on small stack profiles with inlined locations (1-3 lines), locations shared between "
          "samples and repeated in a stack, unsymbolized locations, empty stacks, matches at root / leaf / middle; the real fetchProfiles on one in-memory source with mappings of mixed HasFunctions flags; "
-         "histories of 2-3 operations on the SAME object (prune, prunefrom, removeun, driver fetchProfiles then generateRawReport "
+         "drop/keep expressions from a grammar (alternations starting/ending with groups, one group, leading ^, trailing $, (?i)) probed with full and PARTIAL matches of their alternatives (anchor-probe), judged through a full-match oracle computed from the expression itself; histories of 2-3 operations on the SAME object (prune, prunefrom, removeun, driver fetchProfiles then generateRawReport "
          "-prune_from) judged against the composition of the frame rules (id-free frame-sample observable); distinct = sha256 of "
          "the input term; non-trivial = the operation changed samples or locations",
     spec_what="frames removed by Prune / PruneFrom / RemoveUninteresting differ from the C11 statement (frame rules of S_Prune.v)",
